@@ -139,6 +139,8 @@ class C11(PoolCheck):
             d = limit + rng.choice([-1, 0, 1])
             doc = {'gen': 'wide', 'count': d}
         lazy = rng.choice([0, 1])
+        if rng.random() < 0.5:
+            doc['decor'] = [rng.randrange(1 << 30), rng.choice([1, 2, 5, 40])]   # comments / PIs sprinkled in
         plan_cls = rng.choice(['whole', 'tiny', 'block16k', 'geometric'])
         return {'kind': 'limit', 'which': which, 'limit': limit, 'value': d, 'docgen': doc, 'lazy': lazy,
                 'api': rng.choice(['resource', 'iter_errors', 'is_valid', 'decode_lax']),
@@ -164,6 +166,11 @@ class C11(PoolCheck):
         ('unknownns', b'<', b'<zz:q xmlns:zz="urn:zz"/><'), ('ctrlchar', b'>', b'>&#1;'), ('bigcharref', b'>', b'>&#1114112;'),
         ('nan', b'1', b'NaN'), ('inf', b'1', b'-INF'), ('exp', b'1', b'1e999999999'), ('dur', b'true', b'P99999999999999Y'),
         ('time', b'00:00:00', b'24:00:01'), ('tz', b'Z', b'+99:99'), ('leadws', b'="', b'="\t\n '),
+        ('qname3', b':name', b':b:name'), ('qname3attr', b':attr', b':x:attr'), ('qnameval', b':val', b':v:val'),
+        ('xsitype3', b'>', b' xmlns:xsi="http://www.w3.org/2001/XMLSchema-instance" xsi:type="a:b:c">'),
+        ('xsitypeknown3', b'xsi:type="t:', b'xsi:type="t:t:'), ('listitem', b' 2', b' x'), ('emptyval', b'="1', b'="'),
+        ('nilstray', b'/>', b' xmlns:xsi="http://www.w3.org/2001/XMLSchema-instance" xsi:nil="true"/>'),
+        ('longtoken', b'="', b'="' + b'A' * 70000), ('refstray', b'ref="', b'ref=" '), ('dupattrns', b'<', b'<!-- -->'),
     )
 
     def gen_lexical(self, rng):
@@ -171,9 +178,12 @@ class C11(PoolCheck):
         e = self.entries[key]
         di = rng.randrange(len(e.docs))
         muts = []
+        data = e.docs[di].data
+        body = data[data.find(b'?>') + 2:]
+        applicable = [m for m, (_, old, _new) in enumerate(self.MUTATIONS) if old in body] or [0]
         for _ in range(rng.choice([1, 1, 2])):
-            m = rng.randrange(len(self.MUTATIONS))
-            muts.append([m, rng.randrange(0, 12)])
+            m = rng.choice(applicable)            # only mutations whose pattern occurs in this document
+            muts.append([m, rng.randrange(0, max(1, min(12, body.count(self.MUTATIONS[m][1]))))])
         return {'kind': 'lexical', 'entry': key, 'doc': di, 'muts': muts, 'api': rng.choice(APIS),
                 'lazy': rng.choice([0, 0, 1]), 'src': {'ch': 'bytes'}}
 
@@ -359,6 +369,9 @@ class C11(PoolCheck):
         e = self.entries['recur/' + case['version']]
         g = case['docgen']
         data = Recur.nested(g['depth'], g['width']) if g['gen'] == 'nested' else Recur.wide(g['count'])
+        if g.get('decor'):
+            import random as _random
+            data = Recur.decorate(data, _random.Random(g['decor'][0]), g['decor'][1])
         name = 'MAX_XML_DEPTH' if case['which'] == 'depth' else 'MAX_XML_ELEMENTS'
         saved = getattr(limits, name)
         env = self.new_env()
@@ -389,7 +402,8 @@ class C11(PoolCheck):
         counters = {'limit_cases': 1, 'limit_%s_%s' % (case['which'], 'over' if v > limit else 'under' if v < limit else 'at'): 1}
         if v == limit:
             counters['at_limit_outcome_' + ('exceeded' if exceeded else res['k'])] = 1
-        skeleton = ['limit', case['which'], limit, v - limit, case['lazy'], case['api'], case['src']['ch'], case['src']['pclass']]
+        skeleton = ['limit', case['which'], limit, v - limit, case['lazy'], case['api'], case['src']['ch'],
+                    case['src']['pclass'], (g.get('decor') or [0, 0])[1]]
         return {'violations': violations, 'skeleton': skeleton, 'nontrivial': True, 'counters': counters,
                 'digest': core.stable_hash(res), 'sample': {'case': case, 'outcome': res.get('cls', res['k'])}}
 
